@@ -18,8 +18,13 @@ impl Code {
         let mut local_variables = LocalVariables::new(interpreter);
         let instructions = parse
             .map(|pair| {
-                InstructionWithStr::new(pair, &mut local_variables)
-                    .and_then(|iws| Ok(iws.recreate(&mut local_variables)?))
+                // a statement is folded against the scope as it was before it:
+                // it must not see what it declares itself
+                let mut before = local_variables.fork();
+                let iws = InstructionWithStr::new(pair, &mut local_variables)?;
+                let iws = iws.recreate(&mut before)?;
+                local_variables.absorb(before.drop_layer());
+                Ok(iws)
             })
             .collect::<Result<_, Error>>()?;
         Ok(Self { instructions })
